@@ -44,7 +44,7 @@ ValSeq == SortedSeq(ValSet)
 Sample(code, j, len) ==
   LET x0 == LcgIter((Seed * 7919 + code * 31 + j * 977) % 65536, 3)
       RECURSIVE Gen(_, _)
-      Gen(x, k) == IF k = 0 THEN <<>> ELSE <<ValSeq[1 + ((x \div 64) % Len(ValSeq))]>> \o Gen(Lcg(x), k - 1)
+      Gen(x, k) == IF k = 0 THEN <<>> ELSE <<ValSeq[1 + ((x \div 1024) % Len(ValSeq))]>> \o Gen(Lcg(x), k - 1)
   IN  Gen(x0, len)
 
 Assignments(sh, var, conv) ==
